@@ -655,6 +655,44 @@ fn main() {
         let _ = std::fs::remove_file(&p);
     }
 
+    // extremely repetitive payloads (> 1 MiB serialised, compressing by far more than 128x): whatever save writes, load must accept
+    {
+        let fast_eq = |a: &TensorData, bq: &TensorData| -> bool {
+            a.len() == bq.len() && a.iter().all(|(k, v)| match (v, bq.get(k)) {
+                (TensorValue::Vector(x), Some(TensorValue::Vector(y))) => x.len() == y.len() && x.iter().zip(y).all(|(p, q)| p.to_bits() == q.to_bits()),
+                (x, Some(y)) => x == y,
+                _ => false,
+            })
+        };
+        let mut cases: Vec<(&str, Vec<(String, TensorData)>)> = vec![];
+        let mut t = TensorData::new();
+        t.set("z", TensorValue::Vector(vec![0.0; 1_000_000]));
+        cases.push(("one vector of 1,000,000 zeros", vec![("zeros".to_string(), t)]));
+        let mut t = TensorData::new();
+        t.set("s", TensorValue::Scalar(ScalarValue::String(" ".repeat(4 << 20))));
+        cases.push(("one 4 MiB blank string", vec![("user:blank".to_string(), t)]));
+        let rows = args.budget(30_000, 100_000);
+        cases.push(("rows carrying the same string", (0..rows).map(|j| { let mut t = TensorData::new(); t.set("name", TensorValue::Scalar(ScalarValue::String("the same string in every single row of this table, again and again".into()))); ("row".to_string() + &"0".repeat(6 - format!("{j}").len().min(6)) + &format!("{j}"), t) }).collect()));
+        for (ci, (what, entries)) in cases.into_iter().enumerate() {
+            let s = TensorStore::new();
+            for (k, t) in &entries { s.put(k.clone(), t.clone()).unwrap(); }
+            let p = scratch.join("bomb.bin");
+            let raw_len = s.snapshot_bytes().map(|bs| bs.len()).unwrap_or(0);
+            let res = s.save_snapshot(&p).map_err(|e| e.to_string()).and_then(|_| TensorStore::load_snapshot(&p).map_err(|e| e.to_string()));
+            let file_len = std::fs::metadata(&p).map(|m| m.len()).unwrap_or(1).max(1);
+            dist.add("big.extreme_ratio_x", raw_len as u64 / file_len);
+            big.push(&format!("x{ci}"), &format!("big#extreme {what}: serialised={raw_len}B file={file_len}B ratio={}x", raw_len as u64 / file_len), true);
+            match res {
+                Ok(l) => {
+                    let same = l.len() == s.len() && entries.iter().all(|(k, t)| l.get(k).map(|g| fast_eq(t, &g)).unwrap_or(false));
+                    if !same { hits.push("big-roundtrip", &format!("{what}: store differs after save_snapshot/load_snapshot"), json!({"kind": "big", "index": format!("extreme{ci}")})); }
+                }
+                Err(e) => hits.push("big-roundtrip", &format!("{what} ({raw_len} bytes serialised, {file_len} bytes on disk, {}x): save_snapshot succeeded but load_snapshot failed: {e}", raw_len as u64 / file_len), json!({"kind": "big", "index": format!("extreme{ci}"), "what": what})),
+            }
+            let _ = std::fs::remove_file(&p);
+        }
+    }
+
     // ---------------------------------------------------------------- tt: long embeddings against the documented tolerance
     // TTConfig::for_dim documents `tolerance: 1e-4` relative per truncated SVD, i.e. d * 1e-4 for d cores
     // (3e-4 for 384 dimensions, 4e-4 at most for the dimensions used here); the check allows 1e-3.
